@@ -12,7 +12,7 @@ V = [
     0, 1, -1, 2, 3, 1.5, 0.0, True, False, None, "", "a", "b", "1", "3", "3.0", "true", "FALSE",
     "abc", "50%", "%z", [], [1], [1, "a"], [[1]], {}, {"a": 1}, {"a": {"b": 1}}, {1: "x"},
     "inf", "-Infinity", "nan", "1e999", "1e3", "0x10", "1_000",      # strings that look like numbers to float() / int()
-    " 7 ", "+5\n", -0.0,                                                   # strings int() accepts that are not plain digits
+    " 7 ", "+5\n", -0.0, " true", "False\n",                                                   # strings int() accepts that are not plain digits
     1e200, -1.7e308, 2 ** 62, -(2 ** 63),                              # the far ends of the 64-bit range
 ]
 K = ["a", "b", "", "1", 0, 1, -1, 1.5, True, False, None]
